@@ -60,6 +60,23 @@ def _cls(kind, n):
     elif kind == "slotsonly":
         slots = tuple(fields) + ("_p",)
         src = f"class {name}:\n    __slots__ = {slots!r}\n    def __init__(self):\n        self._p = 0\n"
+    elif kind == "slotsonlychild":
+        slots = tuple(fields) + ("_p",)
+        src = (f"class {name}_base:\n    __slots__ = {slots!r}\n    def __init__(self):\n        self._p = 0\n"
+               f"class {name}({name}_base):\n    pass\n")
+    elif kind == "slotsonlygrand":
+        nb = (n + 1) // 2
+        src = (f"class {name}_base:\n    __slots__ = {tuple(fields[:nb]) + ('_p',)!r}\n    def __init__(self):\n        self._p = 0\n"
+               f"class {name}({name}_base):\n    __slots__ = {tuple(fields[nb:])!r}\n")
+    elif kind == "plainchild":
+        # the base declares the first half of the members with annotations; the child declares the rest, the last of them with
+        # an annotation that names nothing (the hints of the class cannot be evaluated as a whole)
+        nb = (n + 1) // 2
+        bbody = "".join(f"    {f}: typing.Any\n" for f in fields[:nb]) or "    pass\n"
+        cbody = "".join(f"    {f}: typing.Any\n" for f in fields[nb:-1]) + "".join(f"    {f}: 'NoSuchName'\n" for f in fields[nb:][-1:])
+        args = "".join(f", {f}" for f in fields)
+        init = "".join(f"        self.{f} = {f}\n" for f in fields) or "        pass\n"
+        src = (f"import typing\nclass {name}_base:\n{bbody}class {name}({name}_base):\n{cbody}    def __init__(self{args}):\n{init}")
     elif kind == "varsonly":
         src = f"class {name}:\n    pass\n"
     elif kind == "nt":
@@ -91,9 +108,9 @@ def materialise(kind, elems):
         d = {f"k{i + 1}": e for i, e in enumerate(es)}
         return {"dict": lambda: d, "odict": lambda: collections.OrderedDict(d),
                 "mproxy": lambda: types.MappingProxyType(d), "cmap": lambda: _cls("cmap", 0)(d)}[kind](), es
-    if kind in ("dc", "dcslots", "plain", "nt", "dcchild", "dcslotschild"):
+    if kind in ("dc", "dcslots", "plain", "nt", "dcchild", "dcslotschild", "plainchild"):
         return _cls(kind, n)(*es), es
-    if kind in ("slotsonly", "varsonly"):
+    if kind in ("slotsonly", "varsonly", "slotsonlychild", "slotsonlygrand"):
         o = _cls(kind, n)()
         for i, e in enumerate(es):
             setattr(o, f"f{i + 1}", e)
